@@ -66,7 +66,11 @@ def render(net, lex, opts=None):
                 name = "Vt_" + s["name"]
                 enum_of[s["name"]] = name
                 items = sorted(s["values"].items(), key=lambda kv: int(kv[0]))
-                enums.append("enum %s(%s)" % (name, ", ".join('%s="%s"' % (k, v) for k, v in items)))
+                if L.level and len(items) > 1 and L.rng.random() < 0.4:
+                    # an enum may run over several lines (one value per line, the comma at the line end)
+                    enums.append("enum %s(%s)" % (name, (", " + L.eol() + "  ").join('%s="%s"' % (k, v) for k, v in items)))
+                else:
+                    enums.append("enum %s(%s)" % (name, ", ".join('%s="%s"' % (k, v) for k, v in items)))
     if enums:
         out.append("{ENUMS}")
         out.extend(L.order(enums))
